@@ -379,7 +379,7 @@ def make_ivf(chk):
     case = {"width": 64, "height": 64, "frames": 6, "cfg.enc_mode": 8, "cfg.logical_processors": 1,
             "cfg.intra_period_length": -1, "cfg.hierarchical_levels": 3, "content": "pan"}
     for _ in range(2):
-        res = enc.run_case("plain", case, prefix)
+        res = enc.run_case("asan", case, prefix)
         if not res.timed_out:
             break
     if res.rc != 0 or not os.path.exists(prefix + ".ivf"):
